@@ -153,6 +153,8 @@ func (p *c15p) mapBody() map[string]interface{} {
 	}
 }
 func (p *c15p) name() string { p.expect("h"); b, _ := hex.DecodeString(p.atom()); return string(b) }
+var c15types = []int{0, 25, 19, 23, 1043, 16, 3802, 18, 20, 114, 1009, 2950, 17, 700, 1082}
+
 func (p *c15p) sp()          { for p.peek() == ' ' { p.i++ } }
 
 // table := "(" hname " (" hcol* ") (" row* "))"
@@ -162,7 +164,11 @@ func (p *c15p) table() pgdump.TableDump {
 	p.sp()
 	p.expect("(")
 	for p.sp(); p.peek() != ')'; p.sp() {
-		t.Columns = append(t.Columns, pgdump.ColumnInfo{Name: p.name()})
+		// the declared type of a column is not part of the case encoding: search and scan look at values only, so each
+		// column gets some type, chosen by its position and name (seeded change C15-18: the scan skipped columns by declared type)
+		n := p.name()
+		ty := c15types[(len(t.Columns)*7+len(n)*3+len(t.Name))%len(c15types)]
+		t.Columns = append(t.Columns, pgdump.ColumnInfo{Name: n, TypID: ty, Type: pgdump.TypeName(ty)})
 	}
 	p.expect(")")
 	p.sp()
